@@ -451,7 +451,12 @@ func hasChannelQuery(us []string) bool {
 }
 
 // URNs a modifier may carry in addition: unnormalised and invalid ones
+// phone numbers as people type them whose normal form gocommon's Normalize does not reach in one step
+var unstableTels = []string{"tel:+234 (0) 0803 123 4567", "tel:4400858870981", "tel:12065550000X12", "tel:+43 000 5086055",
+	"tel:+91 00 98765 43210", "tel:+254 (0)0722 123456", "tel:+44 00 858 870981"}
+
 var oddURNs = []string{
+	unstableTels[0], unstableTels[1], unstableTels[2], unstableTels[3], unstableTels[4], unstableTels[5],
 	"tel:+12065551212?a;b", "tel:0788123456? ;)", "telegram:123?%zz", "tel:+593979111111?100%",
 	"tel: +593979111111 ", "tel:+593 979 111111", "tel:0979111111", "TEL:+593979111111", "telegram:abc", "tel:", "xyz:abc", "mailto:notanemail",
 	":::", "", "telegram:12345#  bobby ", "mailto: FOO@example.com", "tel:+593979111111#display", "facebook:ref:abc", "tel:(593) 979-111111",
